@@ -390,7 +390,7 @@ Proof.
 Qed.
 
 Lemma chk_exec q : chk L_exec q = c_exec q. Proof. reflexivity. Qed.
-Lemma chk_inputs q : chk L_inputs q = validate_complete_inputs q. Proof. reflexivity. Qed.
+Lemma chk_inputs q : chk L_inputs q = c_inputs q. Proof. reflexivity. Qed.
 Lemma chk_axes q : chk L_axes q = c_axes q. Proof. reflexivity. Qed.
 Lemma chk_st_names q : chk L_st_names q = c_st_names q. Proof. reflexivity. Qed.
 Lemma chk_check_inputs q : chk L_check_inputs q = check_inputs q. Proof. reflexivity. Qed.
@@ -401,9 +401,9 @@ Proof. intros H. unfold map_steps. apply in_app_iff. now left. Qed.
 Lemma in_steps_tail l cleanup : In (Check l) steps_tail -> In (Check l) (map_steps cleanup).
 Proof. intros H. unfold map_steps. apply in_app_iff. right. apply in_app_iff. now right. Qed.
 
-Lemma validate_map_checks q :
+Lemma validate_map_checks_raw q :
   validate_map q = Ok tt ->
-  c_exec q = Ok tt /\ validate_complete_inputs q = Ok tt /\ c_axes q = Ok tt /\ c_st_names q = Ok tt
+  c_exec q = Ok tt /\ c_inputs q = Ok tt /\ c_axes q = Ok tt /\ c_st_names q = Ok tt
   /\ check_inputs q = Ok tt /\ c_map_shapes q = Ok tt.
 Proof.
   unfold validate_map. intros H. pose proof (first_failure_ok chk _ q H) as G.
@@ -411,6 +411,35 @@ Proof.
   repeat split; apply G.
   1-4: apply in_steps_head; cbn; tauto.
   all: apply in_steps_tail; cbn; tauto.
+Qed.
+
+Lemma validate_map_checks q :
+  validate_map q = Ok tt ->
+  c_exec q = Ok tt /\ validate_complete_inputs q = Ok tt /\ c_axes q = Ok tt /\ c_st_names q = Ok tt
+  /\ check_inputs q = Ok tt /\ c_map_shapes q = Ok tt.
+Proof.
+  intros H. destruct (validate_map_checks_raw q H) as [H1 [H2 H3]]. split; [exact H1|]. split; [|exact H3].
+  unfold c_inputs in H2. now apply bind_ok_unit in H2 as [_ H2].
+Qed.
+
+(* the graph (re)built at the start of run / map: duplicate outputs, inconsistent defaults, cycles *)
+Lemma graph_checks_sound fs :
+  graph_checks fs = Ok tt -> ~ F_dup_output fs /\ ~ F_defaults fs /\ ~ F_cycle fs.
+Proof.
+  unfold graph_checks. intros H. apply bind_ok_unit in H as [Hu H]. apply bind_ok_unit in H as [Hd H].
+  destruct (acyclicb (fgraph fs)) eqn:Hc; [|discriminate].
+  unfold unique_outputs in Hu. destruct (nodup_strb (all_outs fs)) eqn:En; [|discriminate].
+  apply nodup_strb_NoDup in En. repeat split.
+  - intros Hdup. now apply Hdup.
+  - now apply consistent_defaults_sound.
+  - now apply acyclic_sound.
+Qed.
+
+Lemma validate_map_graph q :
+  validate_map q = Ok tt -> graph_checks (q_funcs q) = Ok tt.
+Proof.
+  intros H. destruct (validate_map_checks_raw q H) as [_ [H2 _]]. unfold c_inputs in H2.
+  now apply bind_ok_unit in H2 as [H2 _].
 Qed.
 
 (* ---------- roots, defaults, supplied values ---------- *)
